@@ -1,51 +1,185 @@
 /-
-  C12 — the arithmetic of http_range.c in checked form, over the model of Model/Range.lean (C15):
-  every value the C code computes from a parsed number or a stored range goes through the int64
-  check of Model/Arith.lean.  Props/C12.lean shows the checked forms never yield `ub` and equal the
-  unchecked model on every state the parser can reach.
+  C12 — http_range.c (http_range_parse_next, http_range_parse, http_range_coalesce_unsorted) as a
+  *checked* machine-arithmetic model: every off_t value the C code computes goes through the int64
+  check of Model/Arith.lean, every `ranges[]` access carries its index.  Self-contained (does not
+  import the C15 model Model/Range.lean; the two describe the same function and are both tied to
+  the C by their own correspondence streams).  Limits come from Extracted/RangeConst.lean.
+
+  The C parser walks one NUL-terminated string; strtoll() consumes blanks, a sign and digits only,
+  so no step crosses a ',' and the ','-separated pieces are parsed independently.
 -/
 import LtVerif.Model.Arith
-import LtVerif.Model.Range
+import LtVerif.Extracted.RangeConst
 namespace LtVerif
 namespace Arith
+namespace Rg
 open B
 
-/-! ### http_range.c arithmetic in checked form (over Model/Range.lean) -/
+abbrev Rng := Int × Int
 
-open Range in
-/-- the values http_range_parse_next() computes from the first strtoll() result `n`
-    (suffix form): `-n`, `len + n`, `len - 1` -/
-def rangeSuffixChk (n len : Int) : R Rng :=
-  if n = LLONG_MIN then .ub "-LLONG_MIN"
-  else
-    let neg := -n
-    if !inI64 neg then .ub "-n"
+def llMax : Int := Extracted.llongMax
+def llMin : Int := Extracted.llongMin
+def rmax : Nat := Extracted.rangeRMAX
+def rmaxU : Nat := Extracted.rangeRMAXUnsorted
+
+/-! ### strtoll(s, &e, 10) -/
+
+def isSpace (b : UInt8) : Bool := b = 32 || (9 ≤ b && b ≤ 13)
+
+def takeSign : Bytes → Bool × Bytes
+  | 45 :: t => (true, t)
+  | 43 :: t => (false, t)
+  | s => (false, s)
+
+def decVal (ds : Bytes) : Nat := ds.foldl (fun acc d => acc * 10 + (d.toNat - 48)) 0
+
+def clampLL (neg : Bool) (v : Nat) : Int :=
+  if neg then (if -(v : Int) < llMin then llMin else -(v : Int))
+  else (if (v : Int) > llMax then llMax else (v : Int))
+
+/-- `none` = no conversion (value 0, e = s); else (clamped value, digits consumed, text at e) -/
+def strtoll (s : Bytes) : Option (Int × Bytes × Bytes) :=
+  let (neg, s2) := takeSign (s.dropWhile isSpace)
+  let ds := s2.takeWhile isDigit
+  if ds = [] then none
+  else some (clampLL neg (decVal ds), ds, s2.dropWhile isDigit)
+
+def isBlank (b : UInt8) : Bool := b = 32 || b = 9
+def skipWs (s : Bytes) : Bytes := s.dropWhile isBlank
+
+/-- checked off_t computation -/
+def chk (x : Int) (what : String) : R Int := if inI64 x then .ok x else .ub what
+
+/-! ### http_range_parse_next() -/
+
+/-- the range (none = `ranges[1]` left at -1) and the text at the returned pointer -/
+def parseNext (s : Bytes) (len : Int) : R (Option Rng × Bytes) :=
+  match strtoll s with
+  | none => .ok (none, skipWs s)                              -- n = 0, s == e
+  | some (n, _, e) =>
+    if n ≥ 0 then
+      if n ≠ llMax ∧ n < len then
+        match skipWs e with
+        | 45 :: s2 =>
+          match chk (len - 1) "len-1" with
+          | .ub w => .ub w
+          | .ok l1 =>
+            match strtoll s2 with
+            | none => .ok (some (n, l1), skipWs s2)           -- "first-"
+            | some (m, ds, e2) =>
+              if m = 0 ∧ ds.getLast? ≠ some 48 then .ok (some (n, l1), skipWs e2)   -- n == 0 && e[-1] != '0'
+              else if n ≤ m then .ok (some (n, if m < len then m else l1), skipWs e2)
+              else .ok (none, skipWs e2)
+        | e1 => .ok (none, skipWs e1)
+      else .ok (none, skipWs e)
     else
-      let l1 := len - 1
-      if !inI64 l1 then .ub "len-1"
-      else if len > neg then
-        let a := len + n
-        if !inI64 a then .ub "len+n" else .ok (a, l1)
-      else .ok (0, l1)
+      match chk (len - 1) "len-1" with
+      | .ub w => .ub w
+      | .ok l1 =>
+        if n ≠ llMin then
+          match chk (-n) "-n" with
+          | .ub w => .ub w
+          | .ok neg =>
+            if len > neg then
+              match chk (len + n) "len+n" with
+              | .ub w => .ub w
+              | .ok a => .ok (some (a, l1), skipWs e)
+            else .ok (some (0, l1), skipWs e)
+        else .ok (some (0, l1), skipWs e)                     -- clamped suffix-length: whole representation
 
-open Range in
-/-- `ranges[n-2]-80` in http_range_parse() -/
-def rangeStepChk (st : PSt) (rg : Rng) : R (PSt × Bool) :=
+/-! ### http_range_parse() -/
+
+/-- accepted ranges, most recent first (array slots 2i, 2i+1), and the current limit in ranges -/
+structure PSt where
+  rs : List Rng
+  lim : Nat
+deriving Repr, DecidableEq
+
+/-- the body of the do-while loop for one accepted range; Bool = `break` -/
+def parseStep (st : PSt) (rg : Rng) : R (PSt × Bool) :=
   match st.rs with
-  | [] => .ok (parseStep st rg)
-  | prev :: _ =>
+  | [] => .ok ({ st with rs := [rg] }, false)
+  | prev :: more =>
     if prev.1 ≤ rg.1 then
-      let t := rg.1 - 80
-      if !inI64 t then .ub "ranges[n-2]-80" else .ok (parseStep st rg)
-    else .ok (parseStep st rg)
+      match chk (rg.1 - 80) "ranges[n-2]-80" with
+      | .ub w => .ub w
+      | .ok t =>
+        if prev.2 < t then .ok ({ st with rs := rg :: prev :: more }, false)
+        else .ok ({ st with rs := (prev.1, if prev.2 < rg.2 then rg.2 else prev.2) :: more }, false)
+    else if more.length + 2 > rmaxU then .ok (st, true)
+    else .ok ({ rs := rg :: prev :: more, lim := rmaxU }, false)
 
-open Range in
-/-- `ranges[j]-80` / `b-80` in http_range_coalesce_unsorted() -/
-def rangeOverlapsChk (b e : Int) (r : Rng) : R Bool :=
+def parseLoop (len : Int) : PSt → List Bytes → R PSt
+  | st, [] => .ok st
+  | st, p :: ps =>
+    -- http_range_parse_next() writes ranges[n] and ranges[n+1] with n = 2 * (ranges held)
+    if 2 * st.rs.length + 1 ≥ 2 * rmax then .ub "ranges[] index"
+    else
+      match parseNext p len with
+      | .ub w => .ub w
+      | .ok (some rg, []) =>
+        match parseStep st rg with
+        | .ub w => .ub w
+        | .ok (st', brk) => if brk ∨ st'.rs.length ≥ st'.lim then .ok st' else parseLoop len st' ps
+      | .ok _ => parseLoop len st ps
+
+/-! ### http_range_coalesce_unsorted() -/
+
+/-- the `continue` test negated -/
+def overlaps (b e : Int) (r : Rng) : R Bool :=
   if b ≤ r.1 then
-    (if !inI64 (r.1 - 80) then .ub "ranges[j]-80" else .ok (overlaps b e r))
+    match chk (r.1 - 80) "ranges[j]-80" with
+    | .ub w => .ub w
+    | .ok t => .ok (!(e < t))
   else
-    (if !inI64 (b - 80) then .ub "b-80" else .ok (overlaps b e r))
+    match chk (b - 80) "b-80" with
+    | .ub w => .ub w
+    | .ok t => .ok (!(r.2 < t))
 
+def mergeFirst (b e : Int) : List Rng → R (Option (Rng × List Rng))
+  | [] => .ok none
+  | r :: rest =>
+    match overlaps b e r with
+    | .ub w => .ub w
+    | .ok true => .ok (some ((if b ≤ r.1 then b else r.1, if e ≥ r.2 then e else r.2), rest))
+    | .ok false =>
+      match mergeFirst b e rest with
+      | .ub w => .ub w
+      | .ok none => .ok none
+      | .ok (some (m, rest')) => .ok (some (m, r :: rest'))
+
+def coalescePass : List Rng → R (Option (List Rng))
+  | [] => .ok none
+  | r :: rest =>
+    match mergeFirst r.1 r.2 rest with
+    | .ub w => .ub w
+    | .ok (some (m, rest')) => .ok (some (m :: rest'))
+    | .ok none =>
+      match coalescePass rest with
+      | .ub w => .ub w
+      | .ok none => .ok none
+      | .ok (some rest') => .ok (some (r :: rest'))
+
+/-- restart after every combination; every combination removes one range, so `fuel` = the
+    number of ranges suffices -/
+def coalesce : Nat → List Rng → R (List Rng)
+  | 0, l => .ok l
+  | fuel + 1, l =>
+    match coalescePass l with
+    | .ub w => .ub w
+    | .ok none => .ok l
+    | .ok (some l') => coalesce fuel l'
+
+/-- http_range_parse(): `s` = text after "bytes=" (NUL-free), `len` = representation length -/
+def parse (s : Bytes) (len : Int) : R (List Rng) :=
+  match parseLoop len { rs := [], lim := rmax } (splitOn 44 s) with
+  | .ub w => .ub w
+  | .ok st =>
+    let rs := st.rs.reverse
+    if rs.length ≤ 1 then .ok rs
+    else if st.lim = rmax then .ok rs
+    else coalesce rs.length rs
+
+end Rg
 end Arith
 end LtVerif
